@@ -114,6 +114,11 @@ class AbstractFileSystem(DictType):
         except KeyError:
             _key = key
 
+        if _key.endswith(".lock"):
+            # <name>.lock is the lock file of <name>: it is skipped when the directory is read and
+            # truncated whenever <name> is written, so it can not hold a value
+            raise ValueError("File names ending in '.lock' are reserved for lock files")
+
         fname = os.path.join(self.fdir, _key)
         lock = FileLock(f"{fname}.lock")
         with lock:
